@@ -66,6 +66,8 @@ def run(tier, v):
                 bad.append("temp-file-left")
             extra = [f for f in x.proj_other if f != "Breadlog.yaml" and f not in sc.raw_files]
             extra += [f for f in x.src if f not in orig]
+            # a leftover whose removal was attempted and made to fail by the plan is nothing an implementation could have avoided
+            extra = [f for f in extra if not any(o.op == "unlink" and o.res < 0 and o.path.endswith("/" + f) for o in x.trace)]
             if extra or x.cwd:
                 bad.append("stray-file-left")
         for b in bad:
